@@ -251,6 +251,38 @@ func C17(seed int64, n int) (*cq.Set, *cq.Interner) {
 	in := cq.NewInterner()
 	set := &cq.Set{Stream: "c17", Seed: seed, Imports: "Model.Api Model.Config Corr.C17", CaseTy: "c17_case", RunFn: "run_c17",
 		Rule: "abstract documents (any subset of apiVersion/kind/defaults/exemptions in any order, served and unserved apiVersions, unknown, mis-cased and duplicated keys at every level, valid and malformed values for the six defaults, DNS-label / DNS-subdomain / user name edge cases incl. length limits and duplicates) rendered as JSON and as block YAML; each through load.LoadFromData, ValidatePodSecurityConfiguration, and CompleteConfiguration+ValidateConfiguration of an Admission whose default policy is then observed; also empty input and syntactically broken input; distinct by (format, document); non-trivial = document with at least one member"}
+	// a loaded configuration belongs to its caller: whatever an earlier caller did to the object it was
+	// handed, the same input (empty input included, by every loader) loads to the same configuration
+	for _, probe := range []struct {
+		name string
+		get  func() (*admissionapi.PodSecurityConfiguration, error)
+	}{
+		{"LoadFromData(nil)", func() (*admissionapi.PodSecurityConfiguration, error) { return load.LoadFromData(nil) }},
+		{"LoadFromData(empty)", func() (*admissionapi.PodSecurityConfiguration, error) { return load.LoadFromData([]byte{}) }},
+		{"LoadFromReader(nil)", func() (*admissionapi.PodSecurityConfiguration, error) { return load.LoadFromReader(nil) }},
+		{"LoadFromFile(\"\")", func() (*admissionapi.PodSecurityConfiguration, error) { return load.LoadFromFile("") }},
+		{"LoadFromData(document)", func() (*admissionapi.PodSecurityConfiguration, error) {
+			return load.LoadFromData([]byte(`{"apiVersion":"pod-security.admission.config.k8s.io/v1","kind":"PodSecurityConfiguration","defaults":{"warn":"baseline"},"exemptions":{"namespaces":["kube-system"]}}`))
+		}},
+	} {
+		first, err := probe.get()
+		if err != nil || first == nil {
+			continue // the per-document cases below report load failures
+		}
+		snap, _ := json.Marshal(first)
+		first.Defaults.Enforce, first.Defaults.EnforceVersion, first.Defaults.Audit, first.Defaults.Warn = "restricted", "v1.1", "bogus", ""
+		first.Exemptions.Namespaces = append(first.Exemptions.Namespaces, "scribbled")
+		first.Exemptions.Usernames = append(first.Exemptions.Usernames, "scribbled")
+		for k := range first.Exemptions.Namespaces {
+			first.Exemptions.Namespaces[k] = "scribbled"
+		}
+		second, err2 := probe.get()
+		snap2, _ := json.Marshal(second)
+		if err2 != nil || string(snap) != string(snap2) {
+			set.GoFails = append(set.GoFails, cq.GoFail{What: "loading the same input twice gives different configurations after the first result was modified by its caller (" + probe.name + ")",
+				Replay: map[string]interface{}{"loader": probe.name, "first": string(snap), "second": string(snap2), "second_error": fmt.Sprint(err2), "signature": "c17/shared-config/" + probe.name}})
+		}
+	}
 	add := func(format string, inputTermFn func() string, data []byte, sample map[string]interface{}) {
 		inputTerm := inputTermFn()
 		cfg, err := load.LoadFromData(data)
